@@ -23,6 +23,7 @@ type Program struct {
 	errorStringType types.Type              // *errors.errorString
 	LoadSeconds     float64
 	Initial         []*packages.Package // the packages named on the command line (syntax + type info)
+	ForceSelect     bool                // InstrumentPackage: selects can be forced to one case (spec "force_select")
 	initRefMu       sync.Mutex
 	initRefCache    map[*ssa.Package]map[*ssa.Global]bool
 }
